@@ -129,6 +129,13 @@ func ruleKeyStable(w *World, r *Report) {
 			r.OK(rule, pos, fname, what, "name absent; "+why)
 			return
 		}
+		if ok, why := mergedScanShape(fn, mu, keySet, isKeyMap); ok {
+			// one site that covers both outcomes of the scan
+			r.OK(rule, pos, fname, what+" (scan stopped at a free candidate)", "name absent; "+why)
+			r.OK(rule, pos, fname, what+" (scan exhausted)", "name absent; "+why)
+			updates++
+			return
+		}
 		r.Fail(rule, pos, fname, what, "the assigned key is not shown to be unused (no dominating absent-test in the set of all current keys, no exhausted 1..len scan)")
 	})
 	if updates < 2 {
@@ -260,6 +267,68 @@ func pigeonholeShape(fn *ssa.Function, mu *ssa.MapUpdate, keySet *ssa.MakeMap, i
 		}
 	}
 	return false, ""
+}
+
+// mergedScanShape: `next := 1; for next <= len(M) && keySet[next] { next++ }; M[name] = next` — one assignment
+// for both outcomes of the scan. The candidate starts at 1 and advances by one only while it is at most len(M)
+// and taken, so at the assignment either it is not in the key set, or it is len(M)+1 with all of 1..len(M) taken
+// (pigeonhole: the len(M) names then hold exactly the keys 1..len(M), and len(M)+1 is free).
+func mergedScanShape(fn *ssa.Function, mu *ssa.MapUpdate, keySet *ssa.MakeMap, isKeyMap func(ssa.Value) bool) (bool, string) {
+	if keySet == nil {
+		return false, ""
+	}
+	cv, ok := mu.Value.(*ssa.Convert)
+	if !ok {
+		return false, ""
+	}
+	phi, ok := cv.X.(*ssa.Phi)
+	if !ok {
+		return false, ""
+	}
+	hdr := phi.Block()
+	if !hdr.Dominates(mu.Block()) || reachable(mu.Block(), hdr) {
+		return false, ""
+	}
+	back := 0
+	for i, e := range phi.Edges {
+		p := hdr.Preds[i]
+		if !hdr.Dominates(p) {
+			if c, ok := constInt(e); !ok || c != 1 {
+				return false, ""
+			}
+			continue
+		}
+		inc, ok := e.(*ssa.BinOp)
+		if !ok || inc.Op != token.ADD || inc.X != ssa.Value(phi) {
+			return false, ""
+		}
+		if c, ok := constInt(inc.Y); !ok || c != 1 {
+			return false, ""
+		}
+		inRange, taken := false, false
+		for _, f := range append(factsAt(p), factsAtEdgeTo(p, hdr)...) {
+			if lk, ok := f.Cond.(*ssa.Lookup); ok && lk.X == ssa.Value(keySet) && f.Truth {
+				if c, ok := lk.Index.(*ssa.Convert); ok && c.X == ssa.Value(phi) {
+					taken = true
+				}
+			}
+			if cmp, ok := f.Cond.(*ssa.BinOp); ok && cmp.X == ssa.Value(phi) {
+				if x, okl := lenArg(cmp.Y); okl && isKeyMap(x) {
+					if (cmp.Op == token.LEQ && f.Truth) || (cmp.Op == token.GTR && !f.Truth) {
+						inRange = true
+					}
+				}
+			}
+		}
+		if !inRange || !taken {
+			return false, ""
+		}
+		back++
+	}
+	if back == 0 {
+		return false, ""
+	}
+	return true, "the candidate starts at 1 and advances only while it is <= len and taken: at the assignment it is either absent from the set of all assigned keys, or len+1 with all of 1..len taken (pigeonhole)"
 }
 
 // ---- R-FETCHGATE --------------------------------------------------------------
@@ -820,6 +889,12 @@ func ruleVarNode(w *World, r *Report) {
 }
 
 var c11Witnesses = []Witness{
+	{Name: "benign-key-scan-merged-into-one-assignment", Rule: "R-KEYSTABLE", Benign: true, Edits: []Edit{
+		{File: "variable.go", Old: "\tfor i := 1; i <= size; i++ {\n\t\tkey := VariableKey(i)\n\t\tif !keySet[key] {\n\t\t\tcc.VariableKeyMap[name] = key\n\t\t\treturn key\n\t\t}\n\t}\n\tkey := VariableKey(size + 1)\n", New: "\tnext := 1\n\tfor next <= size && keySet[VariableKey(next)] {\n\t\tnext++\n\t}\n\tkey := VariableKey(next)\n"}}},
+	{Name: "merged-key-scan-stops-one-short", Rule: "R-KEYSTABLE", Edits: []Edit{
+		{File: "variable.go", Old: "\tfor i := 1; i <= size; i++ {\n\t\tkey := VariableKey(i)\n\t\tif !keySet[key] {\n\t\t\tcc.VariableKeyMap[name] = key\n\t\t\treturn key\n\t\t}\n\t}\n\tkey := VariableKey(size + 1)\n", New: "\tnext := 1\n\tfor next < size && keySet[VariableKey(next)] {\n\t\tnext++\n\t}\n\tkey := VariableKey(next)\n"}}},
+	{Name: "merged-key-scan-ignores-taken-keys", Rule: "R-KEYSTABLE", Edits: []Edit{
+		{File: "variable.go", Old: "\tfor i := 1; i <= size; i++ {\n\t\tkey := VariableKey(i)\n\t\tif !keySet[key] {\n\t\t\tcc.VariableKeyMap[name] = key\n\t\t\treturn key\n\t\t}\n\t}\n\tkey := VariableKey(size + 1)\n", New: "\tnext := 1\n\tfor next <= size && !keySet[VariableKey(next)] {\n\t\tnext++\n\t}\n\tkey := VariableKey(next)\n"}}},
 	{Name: "existing-key-reassigned", Rule: "R-KEYSTABLE", Edits: []Edit{
 		{File: "variable.go", Old: "	if key, exist := cc.VariableKeyMap[name]; exist {\n		return key\n	}\n	size := len(cc.VariableKeyMap)", New: "	if key, exist := cc.VariableKeyMap[name]; exist && key > 0 {\n		return key\n	}\n	size := len(cc.VariableKeyMap)"}}},
 	{Name: "first-free-scan-ignores-set", Rule: "R-KEYSTABLE", Edits: []Edit{
